@@ -45,6 +45,10 @@ func main() {
 		props.C18SchedWorker(os.Args[3:])
 		return
 	}
+	if id == "C01" && os.Args[2] == "--history" {
+		props.C01HistoryWorker(os.Args[3:])
+		return
+	}
 	if id == "C15" && os.Args[2] == "--term" {
 		props.C15TermWorker(os.Args[3:])
 		return
